@@ -22,20 +22,28 @@ RULE = ("case = 0-3 earlier collection sessions + the observed session; a sessio
         "reductions with a rank-0 operand, depth 0-4) generated as Python source in the library idiom "
         "(for v, (z, (a, b)) in z << (a & b): ... z_ref += a_val * b_val); per operand rank compressed or "
         "uncompressed ('U': every coordinate of the shape is visited, absent ones with the default); operand "
-        "leaf default 0, 3 or -2 with explicit default and explicit 0 payloads; signed values (products and "
+        "leaf default 0, 3, -2 or None (sentinel -999983 in the model: no stored value is empty; compressed "
+        "ranks only) with explicit default and explicit 0 payloads; values handed over as int / float / int "
+        "subclass and operands built in two stages around read-only queries (ftutil modes); signed values (products and "
         "partial sums that are 0 or cancel), rank-0 operands incl. 0; empty sub-fibers; a random subset of "
         "(rank, trace type) registered with Metrics.trace (iter, intersect_i, populate_read/write_i, "
         "populate_i), output created with or without a shape, optional setNumCachedUses(2..7), session "
         "ended with endCollect or aborted; the observed kernel is also run with collection off. "
         "observation = [output off, output on, dump() counts, Compute.numOps x3, Compute.numIters of every "
-        "traced loop rank]. distinct = distinct canonical JSON; non-trivial = the observed kernel executes "
+        "traced loop rank, maxCoord() of every output fiber off and on, and for 13 further read-backs "
+        "(output getShape() - estimated when not declared -, getActive() per fiber, uncompress(); per operand "
+        "stored tree, getShape(), maxCoord()s, getActive()s, uncompress()) the difference between the run "
+        "with collection off and on]. distinct = distinct canonical JSON; non-trivial = the observed kernel executes "
         "at least one innermost statement")
 TRUSTED = ["Coq 8.16.1 kernel (coqc; coqchk in the thorough tier); vm_compute used; native_compute not used",
            "Print Assumptions of every C15 theorem: Closed under the global context (no axioms)",
            "hand-written Gallina model coq/Model/C15Metrics.v of metrics.py / payload.py operators / the "
            "iterRange, & and << iterators, tied to /repo by the differential correspondence check of this run",
            "harness: harness/check.py, harness/props/c15.py (kernel source generator), CPython 3.12"]
-ASSUMPTIONS = ["a populate_write trace is registered only when the output tensor has a shape (iterators.py "
+ASSUMPTIONS = ["read-backs other than the stored tree and maxCoord() are compared between the two runs of the "
+               "implementation (off vs on) and not computed by the model: a difference violates transparency, "
+               "what their common value should be is property C14's",
+               "a populate_write trace is registered only when the output tensor has a shape (iterators.py "
                "asserts it; fix S41 narrows the assertion to exactly this case)",
                "trace rows other than the number of 'iter' rows are property C16's; the flush threshold "
                "num_cached_uses is varied by the harness but not modelled",
@@ -47,6 +55,8 @@ EXPLANATION = ("interpreter run emits the metric calls of the source as events o
                "iteration space, add count = accumulations onto a non-zero value of a reference map that the "
                "output tree refines (all integers), Metrics state machine turns events into dump()/trace-file numbers from any "
                "prior state; oracle c15_holds evaluated on the implementation's numbers")
+
+NONE_D = -999983     # stands for a leaf default of None: never occurs as a value, so nothing stored is empty
 
 TYPES = ["iter", "intersect_0", "intersect_1", "populate_read_0", "populate_write_0", "populate_1",
          "intersect_2", "intersect_3"]
@@ -83,13 +93,19 @@ def gen_session(rng, name=None, final=False, sparse=None, zero_heavy=False):
         lv.append([z, a, b, int(bool(a) and rng.random() < pu), int(bool(b) and rng.random() < pu), sh])
     sa = [l[5] for l in lv if l[1]]
     sb = [l[5] for l in lv if l[2]]
-    da, db = rng.choice([0, 0, 0, 3, -2]), rng.choice([0, 0, 0, 3, -2])
+    da, db = rng.choice([0, 0, 0, 3, -2, NONE_D]), rng.choice([0, 0, 0, 3, -2, NONE_D])
+    for l in lv:             # default None ("no empty value"): compressed ranks only, the default is never a value
+        if da == NONE_D:
+            l[3] = 0
+        if db == NONE_D:
+            l[4] = 0
     pa = sparse if sparse is not None else rng.choice([0.0, 0.2, 0.4, 0.7])
     kw = dict(p_absent=pa, p_zero=rng.choice([0.0, 0.2, 0.4]), p_emptysub=rng.choice([0.0, 0.15, 0.3]),
               vals=rng.choice([(1, 9), (-4, 5), (-2, 2)]))
     r0 = (lambda: rng.choice([0, 0, 1, -1, 2, 3, -3])) if zero_heavy else (lambda: rng.randint(-3, 5))
-    a = U.gen_fiber(rng, len(sa), sa, da, **kw) if sa else r0()
-    b = U.gen_fiber(rng, len(sb), sb, db, **kw) if sb else r0()
+    # under a None default the explicit 'defaults' generated are stored zeros
+    a = U.gen_fiber(rng, len(sa), sa, 0 if da == NONE_D else da, **kw) if sa else r0()
+    b = U.gen_fiber(rng, len(sb), sb, 0 if db == NONE_D else db, **kw) if sb else r0()
     zshape = rng.random() < 0.5
     traces = []
     for r in range(len(lv)):
@@ -242,8 +258,10 @@ def _build(s):
         rid = [ids[i] for i, l in enumerate(lv) if l[col]]
         shp = [shapes[i] for i, l in enumerate(lv) if l[col]]
         if not rid:
-            return Payload(t), None
-        T = U.build_tensor(copy.deepcopy(t), len(rid), shp, d, rank_ids=rid)
+            return Payload(U.dress(t)), None
+        T = U.build_tensor(copy.deepcopy(t), len(rid), shp, 0 if d == NONE_D else d, rank_ids=rid)
+        if d == NONE_D:
+            T.setDefault(None)
         for i, l in enumerate(lv):
             if l[col] and l[col + 2]:
                 T.setFormat(ids[i], "U")
@@ -253,22 +271,82 @@ def _build(s):
     zid = [ids[i] for i, l in enumerate(lv) if l[0]]
     zshp = [shapes[i] for i, l in enumerate(lv) if l[0]]
     Z = Tensor(rank_ids=zid, shape=zshp) if s["zshape"] and zid else Tensor(rank_ids=zid)
-    return a0, b0, Z, (A, B)
+    if U.MODE["touch"]:
+        U.touch(Z.getRoot()) if zid else None
+        try:
+            Z.getShape()
+        except Exception:
+            pass
+    return {"a0": a0, "b0": b0, "Z": Z, "A": A, "B": B}
 
 
-def _snap(Z):
+def _snap(root):
     from fibertree import Payload
-    r = Z.getRoot()
-    if isinstance(r, Payload):
-        return r.value
-    return U.snap(r)
+    if isinstance(root, Payload):
+        return U.undress(root.value)
+    return U.snap(root)
 
 
-def _exec_kernel(s):
-    a0, b0, Z, keep = _build(s)
-    env = {"a0": a0, "b0": b0, "z0": Z.getRoot()}
+def _norm(x):
+    from fibertree import Payload, Fiber
+    if x is None:
+        return []
+    if isinstance(x, Payload):
+        return _norm(x.value)
+    if isinstance(x, Fiber):
+        return U.snap(x)
+    if isinstance(x, (list, tuple)):
+        return [_norm(y) for y in x]
+    x = U.undress(x)
+    if isinstance(x, bool) or isinstance(x, int):
+        return x
+    return repr(x)
+
+
+def _fibers(root):
+    """every fiber of a tree, root first, depth first"""
+    from fibertree import Fiber
+    if not isinstance(root, Fiber):
+        return []
+    out = [root]
+    for p in root.payloads:
+        out += _fibers(p)
+    return out
+
+
+def _q(fn):
+    try:
+        return _norm(fn())
+    except Exception as e:
+        return ["exception", type(e).__name__]
+
+
+def _maxcoords(root):
+    out = []
+    for f in _fibers(root):
+        m = f.maxCoord()
+        out.append(None if m is None else [U.undress(m)])
+    return out
+
+
+def _readbacks(objs):
+    """everything else a user can read back from the output and the operands (13 entries)"""
+    Z = objs["Z"]
+    zr = Z.getRoot()
+    out = [_q(Z.getShape), [_q(f.getActive) for f in _fibers(zr)],
+           _q(zr.uncompress) if _fibers(zr) else _norm(zr)]
+    for root, T in ((objs["a0"], objs["A"]), (objs["b0"], objs["B"])):
+        if T is None:
+            out += [_norm(root)] * 5
+        else:
+            out += [_snap(root), _q(T.getShape), [_q(f.maxCoord) for f in _fibers(root)],
+                    [_q(f.getActive) for f in _fibers(root)], _q(root.uncompress)]
+    return out
+
+
+def _exec_kernel(s, objs):
+    env = {"a0": objs["a0"], "b0": objs["b0"], "z0": objs["Z"].getRoot()}
     exec(compile(kernel_source(s["lv"]), "<kernel>", "exec"), env)
-    return _snap(Z)
 
 
 def _hard_reset():
@@ -289,17 +367,19 @@ def _hard_reset():
 
 
 def _session(s, prefix):
+    """operands and output are built first (their construction is not part of the session)"""
     from fibertree import Metrics
+    objs = _build(s)
     Metrics.beginCollect(prefix)
     if s.get("ncu"):
         Metrics.setNumCachedUses(s["ncu"])
     for r, ty in s["traces"]:
         Metrics.trace(rank_name(r), TYPES[ty])
-    z = _exec_kernel(s)
+    _exec_kernel(s, objs)
     dump = copy.deepcopy(Metrics.dump())
     if s["end"]:
         Metrics.endCollect()
-    return z, dump
+    return objs, dump
 
 
 def run_impl(case):
@@ -310,10 +390,18 @@ def run_impl(case):
     _hard_reset()
     try:
         f = case["final"]
-        zoff = _exec_kernel(f)                      # collection off
+        off = _build(f)
+        _exec_kernel(f, off)                        # collection off
+        zoff = _snap(off["Z"].getRoot())
+        mc_off = _maxcoords(off["Z"].getRoot())
+        rb_off = _readbacks(off)
         for s in case["prior"]:
             _session(s, prefix)
-        zon, dump = _session(f, prefix)
+        on, dump = _session(f, prefix)              # the observed session ends with endCollect
+        zon = _snap(on["Z"].getRoot())
+        mc_on = _maxcoords(on["Z"].getRoot())
+        rb_on = _readbacks(on)
+        rb = [[] if x == y else [1, x, y] for x, y in zip(rb_off, rb_on)]
         comp = dump.get("Compute", {})
         counts = [comp.get("payload_mul", 0), comp.get("payload_add", 0), comp.get("payload_update", 0)]
         nops = []
@@ -331,7 +419,7 @@ def run_impl(case):
                     iters.append([-1, 2])
             else:
                 iters.append(None)
-        return [zoff, zon, counts, nops, iters]
+        return [zoff, zon, counts, nops, iters, mc_off, mc_on, rb]
     except AssertionError:
         return [-1, 3]
     finally:
